@@ -56,6 +56,13 @@ def numeric_sweep(names, tier, seed, only=None):
             if not ok:
                 fails.append((n, vals, src, det))
                 break
+        else:
+            # the same gate on two groups of operands in one statement
+            vals = param_vectors(np_, "quick", rnd)[3 if np_ else 0]
+            ok, src, det = gatenum.check_gate_broadcast(n, vals)
+            evals += 1
+            if not ok:
+                fails.append((n, vals, src, det))
     return evals, fails, unspecified, samples
 
 
@@ -85,7 +92,10 @@ def run(tier, seed, replay):
 
     if replay:
         r = json.load(open(replay))
-        ok, src, det = gatenum.check_gate_numeric(r["gate"], r["params"])
+        if str(r.get("detail", "")).startswith("one statement"):
+            ok, src, det = gatenum.check_gate_broadcast(r["gate"], r["params"])
+        else:
+            ok, src, det = gatenum.check_gate_numeric(r["gate"], r["params"])
         print("replay %s%r: %s %s" % (r["gate"], r["params"], "property holds" if ok else "PROPERTY FAILS", det))
         if not ok:
             chk.violation("replayed", r)
